@@ -161,7 +161,7 @@ def generate(seed, tier, index=0):
         for i in rng.sample(range(16), rng.randint(1, 10)):
             take_w[i] = 0.0005
     sched = {"policy": "seeded", "seed": rng.getrandbits(32), "take_w": take_w, "deliver_w": deliver_w,
-             "deliver_bias": deliver_bias}
+             "deliver_bias": deliver_bias, "eager": rng.choice([0.0, 0.0, 0.3, 0.7, 1.0])}
     ops = []
     for _ in range(swarm["steps"]):
         mode = rng.choice(swarm["modes"])
